@@ -224,6 +224,7 @@ def _layouts(rows, K, tier):
     lays = [("2d", (rows, K))]
     if rows == 1:
         lays.append(("1d", (K,)))
+        lays.append(("colvec_t", (K, 1)))  # a (K,1) column transposed to (1,K): contiguous by convention, strides (1,1)
     if rows % 2 == 0 or rows == 1:
         lays.append(("3d", (2, max(1, rows // 2), K)))
         lays.append(("3d_noncontig", (max(1, rows // 2), 2, K)))
@@ -306,6 +307,13 @@ def _linear_task(task, out):
                             if only and only != c:
                                 continue
                             x, x64, _, _ = _act(akind, shape, dt, family, fam_phase)
+                            if layout == "colvec_t":
+                                if isinstance(x, QBytesTensor):
+                                    d = x._data.t()
+                                    x = QBytesTensor(x.qtype, None, d.size(), d.stride(), d, x._scale)
+                                else:
+                                    x = x.t()
+                                x64 = x64.t()
                             if layout == "3d_noncontig":
                                 # build the operand with swapped leading dims, then view it transposed (non-contiguous)
                                 if isinstance(x, QBytesTensor):
